@@ -400,6 +400,8 @@ def check_C04(replay=None):
         # frequent manifest roll-overs in half of them, so that fragments chain many times
         for d in docs[::2]:
             d["opts"]["mani-log-rollover-ratio"] = rng.choice([0, 1])
+        # pinned histories in which a compaction re-creates one of its inputs (one edit removes and adds the same file)
+        docs += regression_histories()
     # concurrent histories: several threads ingesting into a stalling tree against running compaction threads;
     # afterwards every key must read back and the verifier must accept the history (Trace_Stall End guards)
     if not replay or "doc" in body and "ingesters" in body["doc"]:
